@@ -22,6 +22,9 @@ def ustr(v):
         return v
     else:
         fn = getattr(v, '__str__', None)
+        if isinstance(v, type):
+            # for a class, v.__str__ is the unbound method of its instances
+            fn = None
         if fn is not None:
             # An object that wants to present its own string representation,
             # but we dont know what type of string. We cant use any built-in
